@@ -124,7 +124,7 @@ fn cell_text(v: &Value) -> String {
 
 fn key_of(r: &Value) -> String {
     let q = &r["request"];
-    format!("{}|{}|{}", q["qid"].as_str().unwrap_or("?"), q["variant"].as_str().unwrap_or(""), q.get("weights").map(|w| w.to_string()).unwrap_or_default())
+    format!("{}|{}|{}|{}", q["qid"].as_str().unwrap_or("?"), q["variant"].as_str().unwrap_or(""), q["tag"].as_str().unwrap_or(""), q.get("weights").map(|w| w.to_string()).unwrap_or_default())
 }
 
 fn case(tier: Tier, case_no: usize, rng: &mut Rng, rep: &mut Report) {
